@@ -13,6 +13,21 @@ CLAIMED = {
             "Trusts Go's []rune conversion as the definition of 'the input's characters'; a defect keyed to one code point outside the class representatives and the random/fuzzed sample would be missed."),
 }
 
+CLAIMED.update({
+    "C11": ("DESIGN.md §3 C11",
+            "model-based testing: exhaustive operation sequences over small contents + rapid random histories against an integer-position reference model and a forward-scan differential",
+            "Every content over {x, LF, CR} up to length 5 x every operation sequence of a fixed depth (6 quick, 7 thorough) is executed against a cursor model; line/column are compared after every step with an independently written coordinate fold and with a fresh forward scan of the real scanner. Random longer contents and histories on top. Held on everything explored.",
+            "At end of input the statement ('peek = after next read') and the convention C12 relies on (one column past) differ; both are admitted there, everywhere else the peeked coordinates are asserted exactly."),
+    "C12": ("DESIGN.md §3 C12",
+            "exhaustive small-scope enumeration + rapid multi-line inputs, reference oracle: forward-scan coordinates of the first character of the base token each token aligns to",
+            "All strings up to length 4 over a 19-symbol alphabet x 16 (quick) / 128 (thorough) option sets x 4 tokenizers, plus random multi-line inputs with every line-break style under random option sets; each token's position is compared with the reference coordinates of its first character, Eof one column past the last character.",
+            "Token offsets are derived from the option-free segmentation (C04) and the C15 aligner; an input whose option run cannot be aligned is reported under an 'unalignable' signature."),
+    "C15": ("DESIGN.md §3 C15",
+            "exhaustive small-scope enumeration over all 128 option sets + rapid fragment-built inputs, reference option semantics (monotone alignment with prescribed drops/rewrites)",
+            "All strings up to length 3 (quick) / 4 (thorough) over an 18-symbol alphabet x all 128 option sets x 4 tokenizers, plus random fragment-built inputs; the option run must be the option-free run with whole tokens dropped (only when their skip option is on) or rewritten exactly as prescribed.",
+            "The decoded value of an unterminated literal is not constrained (no property fixes it); which of two adjacent blanks survives is not constrained."),
+})
+
 PENDING_REASON = "check under construction in this session; not claimed until its machinery is committed and silent on the unchanged tree"
 
 
